@@ -203,6 +203,10 @@ class Report(object):
         return status
 
     def _write_evidence(self, total, disch, new, seen_known):
+        if os.environ.get('VERIF_NO_EVIDENCE') or self.root != '/repo':
+            # runs against scratch copies never overwrite the evidence of
+            # the registered checks
+            return
         os.makedirs(EVIDENCE_DIR, exist_ok=True)
         samples = []
         for r in self.rules:
